@@ -15,7 +15,12 @@ func main() {
 	thorough := flag.Bool("thorough", false, "thorough tier")
 	out := flag.String("out", "", "summary JSON path")
 	list := flag.Bool("list", false, "list streams")
+	selftest := flag.String("selftest", "", "internal: run one isolated case in this process")
 	flag.Parse()
+	if *selftest == "dynamic-lazy" {
+		selftestDynamicLazy()
+		return
+	}
 	if *list {
 		names := []string{}
 		for k := range streams {
